@@ -16,7 +16,7 @@ from core.common import f2b, b2f, close
 from core import impl as I
 
 ID = "C07"
-LEAN_MODULES = ["AcnProofs.C07"]
+LEAN_MODULES = ["AcnProofs.C07", "AcnProofs.C07Est"]
 TIE_MODULES = ["AcnProofs.Lemmas.CodeTieSorted"]
 DRIVER = "drv_C07"
 REQUIRED_THEOREMS = [
@@ -33,6 +33,11 @@ REQUIRED_THEOREMS = [
     "Acn.C07.runSt_eq_run", "Acn.C07.runSt_noest_eq_run", "Acn.C07.rampdown_prev_total",
     "Acn.C07.sim_consequences_of_schedSafe_st", "Acn.C07.rampdown_call_safe",
     "Acn.C07.sim_consequences_rampdown",
+    # arbitrary upper-bound estimators (AcnProofs/C07Est.lean)
+    "Acn.C07.rampdown_is_an_estimator", "Acn.C07.estimate_after_pilot_limit",
+    "Acn.C07.le_estimator_bound_any_estimator", "Acn.C07.schedule_feasible_any_estimator",
+    "Acn.C07.pilot_le_evse_max_any_estimator", "Acn.C07.pilot_le_estimator_bound_any_estimator",
+    "Acn.C07.estimator_bounds_above_evse_max_inert", "Acn.C07.sim_consequences_any_estimator",
 ]
 BUDGET = {"quick": 900, "thorough": 6000, "search": 1200}
 TRUSTED = [
@@ -48,6 +53,9 @@ ASSUMPTIONS = [
     "sessions enter with min_rates <= 0 (Interface.active_sessions gives 0); with caller-set positive "
     "min_rates off the EVSE's level grid the discrete fallback 0 is not covered (hypothesis LbOk)",
     "the network uses the default tolerances (the algorithm-side check cannot see others)",
+    "an upper-bound estimator is ANY function of its own state, the interface's view and the sessions it is handed "
+    "(any dict session_id -> bound, no condition on the bounds); it does not mutate the SessionInfo objects it is "
+    "handed and returns finite-or-inf numbers (a NaN bound is outside an ordered field)",
 ]
 RULE = ("a case is an infrastructure (2-9 stations on three line pairs, delta-wye mixed-sign rows + pod rows, "
         "continuous/ClipperCreek/AeroVironment/min>0 EVSEs, unequal voltages), an algorithm configuration "
@@ -62,6 +70,16 @@ RULE = ("a case is an infrastructure (2-9 stations on three line pairs, delta-wy
         "algorithm as scheduler (AcnModel/SimSorted.lean), WITH the rampdown estimator the stateful loop "
         "SimSortedRd.runSt threading the modelled SimpleRampdown from call to call (AcnModel/SimSortedRd.lean; "
         "thresholds/increment drawn from {0.5,1,2}x{0.5,1,2}x{0.5,1,3}); "
+        "ARBITRARY ESTIMATORS: a further fifth of the budget (own sub-generator, the stream above is unchanged) runs the "
+        "algorithms with a TABLE estimator (an UpperBoundEstimatorBase subclass returning, per period, a dict chosen by "
+        "the generator): per session bounds above the EVSE maximum (max+0.5 .. 1e6, inf), equal to it, zero, negative, "
+        "below the uninterrupted-charging minimum pilot, between / on the levels of a finite-rate EVSE, or no key at "
+        "all; plus keys of sessions that are not active, of no session, and STATION ids; greedy and round robin, "
+        "continuous and finite-rate EVSEs, uninterrupted on/off, 1-3 direct calls or whole simulations; in 40 % the "
+        "limits are multiplied by 3-10 and in half of the sessions the remaining demand is far above the EVSE maximum "
+        "(headroom and demand above the maximum at once); the dict the estimator returned is an INPUT of the model "
+        "call (Sorted.scheduleCallEst), what it was handed is compared with the model's estInput, and whole simulations "
+        "run the table estimator inside the model's loop (SimSortedEst.sortedSchedEst); "
         "constraint-free networks (4 %) and DeadbandEVSE stations (outside the quantifier: modelled, not judged); "
         "non-trivial = some call in which a constraint binds (some session got less than its own upper bound) "
         "or an estimator bound / remaining-demand bound / minimum pilot is the active bound")
@@ -378,7 +396,52 @@ def corpus():
                  {"session": "sess-2", "station": "st-2", "arrival": 3, "departure": 5, "est": 5, "requested": 30, "delivered": 0,
                   "prev_pilot": 0, "rate": 0, "max_override": None}]}]}
     # f6 also lives in harness/corpus/C07/f6_session_id_ne_station_id.json (regression entry)
-    return [f6, swap, mixed]
+    return [f6, swap, mixed] + _custom_corpus()
+
+
+def _custom_corpus():
+    """arbitrary estimators on a network with headroom (limit 1000 A) and remaining demand far above every EVSE
+    maximum: a continuous EVSE, a ClipperCreek-like and an AeroVironment-like finite-rate EVSE; sessions named like
+    ANOTHER station; three calls so that every column of the table is used"""
+    stations = [{"id": "st-0", "line": "AB", "evse": {"t": "cont", "min": 0, "max": 32}, "volt": 208, "phase": 30},
+                {"id": "st-1", "line": "BC", "evse": {"t": "finite", "rates": CC}, "volt": 208, "phase": -90},
+                {"id": "st-2", "line": "CA", "evse": {"t": "finite", "rates": AV}, "volt": 240, "phase": 150},
+                {"id": "st-3", "line": "AB", "evse": {"t": "cont", "min": 0, "max": 48}, "volt": 208, "phase": 30}]
+    cons = [{"name": "c0", "coef": {"st-0": 1.0, "st-1": 1.0, "st-2": 1.0, "st-3": 1.0}, "limit": 1000.0},
+            {"name": "c1", "coef": {"st-0": 1.0, "st-2": -1.0}, "limit": 500.0}]
+
+    def evs(t):
+        return [{"session": "st-1", "station": "st-0", "arrival": 1, "departure": 40, "est": 40, "requested": 40.0,
+                 "delivered": 1.0, "prev_pilot": 32, "rate": 30.0, "max_override": None},
+                {"session": "st-0", "station": "st-1", "arrival": 2, "departure": 35, "est": 30, "requested": 40.0,
+                 "delivered": 2.0, "prev_pilot": 16, "rate": 16.0, "max_override": None},
+                {"session": "sess-2", "station": "st-2", "arrival": 3, "departure": 50, "est": 50, "requested": 64.0,
+                 "delivered": 0.5, "prev_pilot": 0, "rate": 0.0, "max_override": None}]
+
+    table = {"st-1": [100, 5, None],          # the session ON st-0: above the maximum / low / no key
+             "st-0": [None, 10, 1e6],         # the session ON st-1: no key / between levels / above
+             "sess-2": ["inf", 3, 0],         # on st-2 (levels 0, 6..32): inf / below the minimum pilot / zero
+             "st-3": [0], "st-2": [0],        # STATION ids that are not session ids here (st-3 is empty)
+             "idle-9": [1], "": [7]}
+    out = []
+    for algo in ("greedy", "rr"):
+        for un in (False, True):
+            out.append({"mode": "direct", "period": 5, "algo": algo, "sort": "fcfs", "uninterrupted": un,
+                        "estimate": True, "inc": 0.5, "ramp": {"up": 1, "down": 1, "inc": 1},
+                        "stations": stations, "constraints": cons, "est_spec": {"table": table},
+                        "calls": [{"time": 6 + c, "evs": evs(6 + c), "order": [2, 0, 1]} for c in range(3)]})
+    # a whole simulation: bounds above the maximum with ideal batteries that take whatever is offered
+    sim = {"mode": "sim", "period": 5, "algo": "greedy", "sort": "edf", "uninterrupted": False, "estimate": True,
+           "inc": 1, "ramp": {"up": 1, "down": 1, "inc": 1}, "stations": stations[:2],
+           "constraints": [{"name": "c0", "coef": {"st-0": 1.0, "st-1": 1.0}, "limit": 400.0}],
+           "est_spec": {"table": {"a": [80, 12.5, None, 0], "b": [None, 40, 20], "st-0": [0], "zz": [3]}},
+           "evs": [{"session": "a", "station": "st-0", "arrival": 0, "departure": 9, "est": 9, "requested": 30.0,
+                    "batt": {"two": False, "cap": 60, "init": 0, "maxp": 50}},
+                   {"session": "b", "station": "st-1", "arrival": 1, "departure": 8, "est": 10, "requested": 30.0,
+                    "batt": {"two": False, "cap": 60, "init": 0, "maxp": 50}}]}
+    out.append(sim)
+    out.append(dict(sim, algo="rr", uninterrupted=True))
+    return out
 
 
 def enumerate_small():
@@ -422,6 +485,129 @@ def enumerate_small():
     return out
 
 
+# ---- arbitrary upper-bound estimators (UpperBoundEstimatorBase subclasses returning any dict) ----------------
+# A case with "est_spec" runs the algorithm with a TABLE estimator instead of SimpleRampdown: in period t it
+# returns {sid: seq[t % len(seq)] for sid, seq in table if that entry is not None}.  Only C07.generate emits
+# such cases (C08 shares _gen_direct/_gen_sim, which never set "est_spec").
+
+def _min_pilot_of(evse):
+    if evse["t"] == "finite":
+        pos = [float(r) for r in evse["rates"] if float(r) > 0]
+        return min(pos) if pos else 0.0
+    return 0.0
+
+
+def _gen_bound(rng, st):
+    """one estimator answer for a session on station st; None = key absent in that period"""
+    evse = st["evse"]
+    mx = _max_of(evse)
+    mn = _min_pilot_of(evse)
+    r = rng.random()
+    if r < 0.20:      # ABOVE the EVSE's maximum pilot
+        return rng.choice([mx + 0.5, mx + 8, mx + 68, 100, 1e6, "inf", mx * 1.25, int(mx) + 1])
+    if r < 0.26:      # exactly the maximum
+        return rng.choice([mx, int(mx)]) if mx == int(mx) else mx
+    if r < 0.40:      # missing
+        return None
+    if r < 0.50:      # zero (int and float), negative
+        return rng.choice([0, 0.0, 0, -1, -7.5, -0.0])
+    if r < 0.62 and mn > 0:      # below the uninterrupted-charging minimum pilot
+        return rng.choice([mn * 0.5, mn - 1, mn - 0.001, 1, 3, mn * rng.uniform(0.05, 0.99)])
+    if r < 0.80 and evse["t"] == "finite":      # between two levels / exactly a level
+        lv = sorted(float(x) for x in evse["rates"])
+        k = rng.randrange(len(lv))
+        return rng.choice([lv[k], lv[k] + 0.5, lv[k] - 0.25, lv[k] + rng.uniform(0.01, 0.99),
+                           (lv[k] + lv[min(k + 1, len(lv) - 1)]) / 2])
+    return rng.choice([round(rng.uniform(0, mx), 2), round(rng.uniform(0, mx), 1), rng.randint(1, int(mx)),
+                       mx - 0.5, 0.05, 16, 7.3])
+
+
+def _gen_est_spec(rng, stations, sessions):
+    """sessions: [(session id, station id)].  Keys: the sessions (some left out altogether), sessions that are
+    not active, ids that are no sessions at all, STATION ids (an estimator keyed by the wrong thing must be ignored)."""
+    by_id = {s["id"]: s for s in stations}
+    table = {}
+    for sid, stid in sessions:
+        if rng.random() < 0.12:
+            continue                       # no key for this session in any period
+        n = rng.choice([1, 1, 2, 3])
+        table[sid] = [_gen_bound(rng, by_id[stid]) for _ in range(n)]
+    used = {sid for sid, _ in sessions}
+    if rng.random() < 0.5:
+        table[rng.choice(["ghost-1", "", "sess-999"])] = [rng.choice([0, 1, 5, 100])]
+    if rng.random() < 0.5:
+        for st in rng.sample(stations, rng.randint(1, min(2, len(stations)))):
+            if st["id"] not in used:       # a key that is a STATION id (and not also a session id)
+                table[st["id"]] = [rng.choice([0, 0, 1, 3, 6.5])]
+    return {"table": table}
+
+
+def _loosen(rng, case):
+    """network headroom well above every EVSE maximum"""
+    k = rng.choice([3, 4, 10])
+    for c in case["constraints"]:
+        c["limit"] = c["limit"] * k
+    for call in case.get("calls", []):
+        for u in call.get("update", []):
+            u["limit"] = u["limit"] * k
+    for u in case.get("updates", []):
+        u["limit"] = u["limit"] * k
+
+
+def _gen_custom_direct(rng, exact=False):
+    case = None
+    for _ in range(8):
+        case = _gen_direct(rng, exact)
+        if case["estimate"] and case["algo"] != "uncontrolled":
+            break
+    if case["algo"] == "uncontrolled":
+        case["algo"] = rng.choice(["greedy", "rr"])
+    case["estimate"] = True
+    sessions = []
+    for call in case["calls"]:
+        for ev in call["evs"]:
+            if (ev["session"], ev["station"]) not in sessions:
+                sessions.append((ev["session"], ev["station"]))
+            if rng.random() < 0.5:
+                # remaining demand far above the EVSE's maximum for one period
+                ev["requested"] = float(rng.choice([20, 40, 64]))
+                ev["delivered"] = float(rng.choice([0, 1, 2.5]))
+    # sessions on stations that are empty in this case: keys of sessions that are not active
+    for st in case["stations"]:
+        if all(stid != st["id"] for _sid, stid in sessions) and rng.random() < 0.5:
+            sessions.append((f"idle-{st['id']}", st["id"]))
+    case["est_spec"] = _gen_est_spec(rng, case["stations"], sessions)
+    if rng.random() < 0.4:
+        _loosen(rng, case)
+    return case
+
+
+def _gen_custom_sim(rng):
+    case = _gen_sim(rng)
+    if case["algo"] == "uncontrolled":
+        case["algo"] = rng.choice(["greedy", "rr"])
+        case.pop("updates", None)
+    if case.get("updates") and rng.random() < 0.6:
+        case.pop("updates")            # most of these simulations also run through the composition model
+    case["estimate"] = True
+    sessions = [(e["session"], e["station"]) for e in case["evs"]]
+    case["est_spec"] = _gen_est_spec(rng, case["stations"], sessions)
+    if rng.random() < 0.4:
+        _loosen(rng, case)
+    return case
+
+
+def _gen_custom(rng, n):
+    out = []
+    for i in range(n):
+        r = i % 10
+        if r == 9:
+            out.append(_gen_custom_sim(rng))
+        else:
+            out.append(_gen_custom_direct(rng, exact=(r in (3, 7))))
+    return out
+
+
 def generate(rng, n, tier):
     out = []
     if tier == "thorough":
@@ -434,6 +620,8 @@ def generate(rng, n, tier):
             out.append(_gen_direct(rng, exact=True))
         else:
             out.append(_gen_direct(rng))
+    # arbitrary estimators: a private generator seeded AFTER the stream above (which is therefore unchanged)
+    out.extend(_gen_custom(random.Random(rng.getrandbits(64)), max(30, n // 5)))
     return out
 
 
@@ -511,6 +699,34 @@ def _err_class(e):
     return I.err_name(e)
 
 
+def table_answer(spec, t):
+    """the dict a table estimator returns in period t (see _gen_est_spec)"""
+    out = {}
+    for sid, seq in spec["table"].items():
+        if not seq:
+            continue
+        v = seq[t % len(seq)]
+        if v is not None:
+            out[sid] = I.num(v)
+    return out
+
+
+def make_table_estimator(spec, rec):
+    """an arbitrary UpperBoundEstimatorBase subclass: user code, as the package documents it"""
+    from acnportal.algorithms import UpperBoundEstimatorBase
+
+    class TableEstimator(UpperBoundEstimatorBase):
+        def get_maximum_rates(self, sessions):
+            t = int(self.interface.current_time)
+            out = table_answer(spec, t)
+            rec.est_log = {"dict": {k: I.enc(float(v)) for k, v in out.items()},
+                           "seen": [[s.session_id, s.station_id, I.enc(float(s.min_rates[0])), I.enc(float(s.max_rates[0]))]
+                                    for s in sessions]}
+            return out
+
+    return TableEstimator()
+
+
 class _Recorder:
     """Wraps algorithm.schedule: captures inputs (before preprocessing mutates them), outputs and the
     implementation-side oracle facts of every invocation."""
@@ -520,6 +736,7 @@ class _Recorder:
         self.net = net
         self.calls = []
         self.order_log = None
+        self.est_log = None
         self.crash_at = case.get("roundtrip_at")
         self.dynamic = bool(case.get("updates")) or any("update" in c for c in case.get("calls", []))
 
@@ -542,6 +759,8 @@ class _Recorder:
                 return out
 
             est = Ramp(case["ramp"]["up"], case["ramp"]["down"], case["ramp"]["inc"]) if case["estimate"] else None
+            if case["estimate"] and case.get("est_spec") is not None:
+                est = make_table_estimator(case["est_spec"], rec)
             kwargs = {"estimate_max_rate": case["estimate"], "max_rate_estimator": est,
                       "uninterrupted_charging": case["uninterrupted"]}
             if case["algo"] == "rr":
@@ -569,6 +788,10 @@ class _Recorder:
             call["net"] = {"M": [[float(x) for x in row] for row in info.constraint_matrix],
                            "lims": [float(x) for x in info.constraint_limits]}
         est = getattr(algo, "max_rate_estimator", None)
+        custom = est is not None and not hasattr(est, "upper_bounds")
+        if custom:
+            est = None          # a table estimator: no rampdown dict, no use of last period's pilots / rates
+        self.est_log = None
         prev = []
         if est is not None:
             pp = iface.last_applied_pilot_signals
@@ -589,6 +812,10 @@ class _Recorder:
         call["post"] = {s.session_id: [I.enc(float(s.min_rates[0])), I.enc(float(s.max_rates[0]))] for s in sessions}
         if est is not None:
             call["bounds"] = {k: float(v) for k, v in est.upper_bounds.items()}
+        if custom:
+            # what get_maximum_rates was handed and what it answered in THIS call (None: it was not called)
+            call["est_dict"] = None if self.est_log is None else self.est_log["dict"]
+            call["est_seen"] = None if self.est_log is None else self.est_log["seen"]
         if out is not None:
             ids = net.station_ids
             call["schedule"] = {k: [float(x) for x in v] for k, v in out.items()}
@@ -741,6 +968,9 @@ def model_request(case, obs):
         extra = {}
         if "net" in c:
             extra["net"] = {"M": [[f2b(x) for x in r] for r in c["net"]["M"]], "lims": [f2b(x) for x in c["net"]["lims"]]}
+        if case.get("est_spec") is not None and case["estimate"]:
+            ed = c.get("est_dict")
+            extra["est"] = None if ed is None else [[k, f2b(I.num(v))] for k, v in ed.items()]
         calls.append({**extra, "time": c["time"], "prev": [[k, f2b(p), f2b(r)] for k, p, r in c["prev"]],
                       "sessions": [{"station": s["station"], "session": s["session"], "arrival": s["arrival"],
                                     "est": s["est"], "remaining_time": s["remaining_time"],
@@ -757,6 +987,12 @@ def model_request(case, obs):
                                       for st in case["stations"]],
                          "evs": [I.ev_wire(e) for e in case["evs"]], "recomputes": [], "max_recompute": 1,
                          "period": f2b(case["period"]), "noise": []}
+    if case.get("est_spec") is not None and case["estimate"]:
+        # an ARBITRARY estimator: the dict it returned is an input of every call (drv_C07: Sorted.scheduleCallEst);
+        # whole simulations run the table estimator inside the model's loop (SimSortedEst.sortedSchedEst)
+        req["custom_est"] = True
+        req["est_table"] = [[sid, [None if v is None else f2b(I.num(v)) for v in seq]]
+                            for sid, seq in case["est_spec"]["table"].items()]
     return req
 
 
@@ -925,7 +1161,29 @@ def oracle(case, obs):
             mx = min(I.num(inf["maxp"][i]), I.num(s["max"]))
             if not _le(p, max(mx, minp)):
                 fails.append({"kind": "exceeds_max_rate", "detail": f"call {k}: session {s['session']} pilot {p} > max {mx}"})
-            if case["estimate"]:
+            if case["estimate"] and case.get("est_spec") is not None:
+                # ARBITRARY estimator.  Its answer in this call (the spec of the table estimator, not the model):
+                ans = table_answer(case["est_spec"], c["time"])
+                b = ans.get(s["session"])            # by SESSION id; None = no bound for this session
+                thr = inf["minp"][i] * inf["volt"][i] / (60 / period) / 1000
+                if b is not None and not _le(p, max(float(b), minp)):
+                    fails.append({"kind": "estimator_bound_ignored",
+                                  "detail": f"call {k}: session {s['session']} on {st}: pilot {p} > estimator bound {b} "
+                                            f"(minimum pilot {minp})"})
+                if not _le(p, I.num(inf["maxp"][i])):
+                    fails.append({"kind": "exceeds_evse_max_with_estimator",
+                                  "detail": f"call {k}: session {s['session']} on {st}: pilot {p} > EVSE maximum "
+                                            f"{inf['maxp'][i]} (estimator bound {b})"})
+                post = c["post"].get(s["session"])
+                if s["requested"] - s["delivered"] > thr and not case["uninterrupted"] and post is not None:
+                    # what apply_upper_bound_estimate documents: max_rates = min(max_rates, bound or inf), lifted to
+                    # min_rates when below (observable: schedule() updates the SessionInfo objects in place)
+                    want = max(min(mx, math.inf if b is None else float(b)), I.num(s["min"]))
+                    if not close(I.num(post[1]), want):
+                        fails.append({"kind": "estimator_answer_misapplied",
+                                      "detail": f"call {k}: session {s['session']} on {st}: max rate after preprocessing "
+                                                f"{post[1]}, expected {want} (EVSE/session max {mx}, estimator bound {b})"})
+            elif case["estimate"]:
                 pr = next(((pp, rr) for sid, pp, rr in c["prev"] if sid == s["session"]), None)
                 thr = inf["minp"][i] * inf["volt"][i] / (60 / period) / 1000
                 if s["requested"] - s["delivered"] > thr:      # the estimator only sees unfinished sessions
@@ -975,13 +1233,69 @@ def _binding(case, obs, c):
     return False
 
 
+def _est_bound(case, c, sid, default=-1.0):
+    """the estimator's bound for session sid in call c (rampdown dict or table answer); default when there is none"""
+    if case.get("est_spec") is not None:
+        b = table_answer(case["est_spec"], c["time"]).get(sid)
+        return default if b is None else float(b)
+    return c.get("bounds", {}).get(sid, default)
+
+
+def _est_features(case, obs, c, idx):
+    """which kinds of answers the arbitrary estimator gave in this call, and whether they mattered"""
+    inf = obs["infra"]
+    out = []
+    ans = table_answer(case["est_spec"], c["time"])
+    active = {s["session"] for s in c["sessions"]}
+    stations = set(inf["ids"])
+    for k in ans:
+        if k not in active:
+            out.append("est_key:" + ("station_id" if k in stations else "not_an_active_session"))
+    for s in c["sessions"]:
+        i = idx[s["station"]]
+        maxp = I.num(inf["maxp"][i])
+        minp = inf["minp"][i]
+        b = ans.get(s["session"])
+        if b is None:
+            out.append("est_bound:missing")
+            continue
+        b = float(b)
+        lv = None if inf["cont"][i] else [I.num(a) for a in inf["allow"][i]]
+        if math.isinf(b):
+            out.append("est_bound:inf")
+        elif b > maxp:
+            out.append("est_bound:above_evse_max")
+        elif b == maxp:
+            out.append("est_bound:equals_evse_max")
+        elif b < 0:
+            out.append("est_bound:negative")
+        elif b == 0:
+            out.append("est_bound:zero")
+        elif case["uninterrupted"] and b < minp:
+            out.append("est_bound:below_min_pilot_uninterrupted")
+        elif lv is not None and not any(b == a for a in lv):
+            out.append("est_bound:between_levels")
+        else:
+            out.append("est_bound:interior")
+        if c["err"] is None and "schedule" in c:
+            p = c["schedule"][s["station"]][0]
+            rap = (s["requested"] - s["delivered"]) * 1000 / inf["volt"][i] * 60 / case["period"]
+            if b > maxp and rap > maxp and close(p, maxp):
+                out.append("est_above_max:pilot_held_at_evse_max_with_demand_above")
+            if case["uninterrupted"] and p > b + 1e-9 and close(p, minp):
+                out.append("est_below_min:pilot_held_at_min_pilot")
+    return out
+
+
 def nontrivial(case, obs):
     return any(_binding(case, obs, c) for c in obs["calls"])
 
 
 def features(case, obs):
     out = ["mode:" + case["mode"] + (":enumerated" if case.get("enumerated") else ""), "algo:" + case["algo"], "sort:" + case["sort"],
-           f"unint:{case['uninterrupted']}", f"est:{case['estimate']}", f"inc:{case['inc']}",
+           f"unint:{case['uninterrupted']}",
+           f"est:{case['estimate']}" + (":arbitrary_estimator" if case["estimate"] and case.get("est_spec") is not None else ""),
+           f"inc:{case['inc']}",
            f"stations:{len(case['stations'])}", f"calls:{min(len(obs['calls']), 20)}"]
     inf = obs["infra"]
     idx = {s: i for i, s in enumerate(inf["ids"])}
@@ -1014,7 +1328,7 @@ def features(case, obs):
                     out.append(f"grant:{kind}:remaining_demand")
                 elif close(p, I.num(inf["maxp"][i])):
                     out.append(f"grant:{kind}:max_pilot")
-                elif case["estimate"] and close(p, c["bounds"].get(s["session"], -1)):
+                elif case["estimate"] and close(p, _est_bound(case, c, s["session"])):
                     out.append(f"grant:{kind}:estimator_bound")
                 elif case["uninterrupted"] and close(p, inf["minp"][i]):
                     out.append(f"grant:{kind}:min_pilot")
@@ -1029,10 +1343,17 @@ def features(case, obs):
                 out.append("finished_removed")
             if c["prev"]:
                 out.append("estimator_has_history")
+            if case["estimate"] and case.get("est_spec") is not None:
+                out.extend(_est_features(case, obs, c, idx))
+                if c.get("est_seen") is not None:
+                    # evidence only (not compared: the order of two commuting preprocessing steps is not the property):
+                    # were the sessions handed to get_maximum_rates already limited to the EVSE maximum?
+                    lim = all(I.num(mx) <= I.num(inf["maxp"][idx[stn]]) for _sid, stn, _mn, mx in c["est_seen"])
+                    out.append("estimator_handed_evse_limited_sessions:" + str(lim))
     if obs["mode"] == "sim":
         out.append("sim_err:" + str(obs["sim_err"])[:30])
-        out.append("simrun_through_adapter:" + str(not case.get("updates")) + (":stateful_estimator" if case["estimate"] else ""))
-        if case["estimate"]:
+        out.append("simrun_through_adapter:" + str(not case.get("updates")) + ((":arbitrary_table_estimator" if case.get("est_spec") is not None else ":stateful_estimator") if case["estimate"] else ""))
+        if case["estimate"] and case.get("est_spec") is None:
             out.append("ramp:%s/%s/%s" % (case["ramp"]["up"], case["ramp"]["down"], case["ramp"]["inc"]))
             lowered = any(c["err"] is None and any(v < I.num(obs["infra"]["maxp"][obs["infra"]["ids"].index(s["station"])]) - 1e-9
                                                    for s in c["sessions"] for k, v in c.get("bounds", {}).items() if k == s["session"])
